@@ -56,6 +56,8 @@ class HasLoadDependencies(Contract):
         return self.TealOp if I.ctx.branch(ISOP(ref.term)) else object
 
     def c_iterate(self, I, args, kwargs):
+        # `reachable` is the routine: the blocks reachable from `start` - the scan has to cover all of it
+        I.ctx.oblige("the-scan-covers-the-whole-routine-(iterates-from-start)", args[-1].term == I.ctx.ghost["start"].term)
         return I.ctx.ghost["blocks"]
 
     def setup(self, ctx, I):
@@ -69,7 +71,7 @@ class HasLoadDependencies(Contract):
         slot = SRef(z3.Int("slot"), self.ScratchSlot)
         pos = z3.Int("pos")
         ctx.assume(z3.And(cur.term >= 0, start.term >= 0, slot.term >= 0))
-        ctx.ghost.update(blocks=blocks, cur=cur, slot=slot, pos=pos)
+        ctx.ghost.update(blocks=blocks, cur=cur, slot=slot, pos=pos, start=start)
         return {"args": [cur, start, slot, pos]}
 
     def dep(self, ctx, b, i):
@@ -307,7 +309,7 @@ class RemoveExtraneousSlotAccess(Contract):
         self.codes = {m: i for i, m in enumerate(Op)}
         self.raises_only = ()
         self.callees = {
-            TealBlock.__dict__["Iterate"].__func__: lambda I, args, kwargs: I.ctx.ghost["blocks"],
+            TealBlock.__dict__["Iterate"].__func__: self.c_iterate,
             ("type", TealOp): lambda I, ref: (TealOp if I.ctx.branch(ISOP(ref.term)) else object),
             TealOp.__dict__["getSlots"]: lambda I, args, kwargs: SlotList(args[0], ScratchSlot),
             set: self.c_set,
@@ -353,6 +355,10 @@ class RemoveExtraneousSlotAccess(Contract):
             return out
         raise Unsupported("list() of something else")
 
+    def c_iterate(self, I, args, kwargs):
+        I.ctx.oblige("every-block-of-the-routine-is-filtered-(iterates-from-start)", args[-1].term == I.ctx.ghost["start"].term)
+        return I.ctx.ghost["blocks"]
+
     def w_ops(self, I, block, v):
         """block.ops = v : v must be list(filter(keep_op, <the ops of this very block>))"""
         src = I.ctx.ghost.get("assigned_from")
@@ -368,7 +374,7 @@ class RemoveExtraneousSlotAccess(Contract):
         ctx.assume(blocks.length >= 0)
         start = SRef(z3.Int("start"), self.TealBlock)
         remove = SSet(REF(self.ScratchSlot), name="remove")
-        ctx.ghost.update(blocks=blocks, remove=remove, assigned_from=None, subset_target=remove)
+        ctx.ghost.update(blocks=blocks, remove=remove, assigned_from=None, subset_target=remove, start=start)
         return {"args": [start, remove]}
 
     def inv(self, ctx, env, it):
